@@ -86,11 +86,23 @@ def gen(rng, tier, index):
     else:
         plan["N"] = 800 if tier == "quick" else int(rng.choice([1600, 4000]))
         plan["dt"] = float(rng.uniform(0.006, 0.012))
+    # buggified legal knobs (F6): the scheme's properties must not depend on how the Newton iteration is organised
+    knobs = {}
+    if rng.random() < 0.3:
+        knobs["reuse_lu_decomposition"] = False
+    if mode != "drift" and rng.random() < 0.2:
+        knobs["numerical_jacobian_method"] = str(rng.choice(["2-point", "3-point"]))
+        plan["N"] = min(plan["N"], 50)
+        if plan.get("crash_at"):
+            plan["crash_at"] = min(plan["crash_at"], plan["N"] - 1)
+    plan["knobs"] = knobs
     return plan
 
 
 def spec_for(plan, dt, steps):
-    return {"name": "Rattle", "dt": dt, "steps": steps, "options": tight(), "kwargs": {}}
+    o = tight()
+    o.update(plan.get("knobs") or {})
+    return {"name": "Rattle", "dt": dt, "steps": steps, "options": o, "kwargs": {}}
 
 
 def energies(B, sol):
@@ -247,6 +259,7 @@ def execute(plan, out, log):
             any(j.get("loop") for j in sc["joints"]),
             tuple(sorted(b["kind"] for b in sc["bodies"])),
             bool(sc.get("from_rest")),
+            tuple(sorted((plan.get("knobs") or {}).items())),
         )
     )
 
@@ -257,6 +270,9 @@ def shrink(plan):
         yield dict(plan, N=max(floor, plan["N"] // 2), crash_at=None)
     if plan.get("crash_at"):
         yield dict(plan, crash_at=None)
+    if plan.get("knobs"):
+        for k in plan["knobs"]:
+            yield dict(plan, knobs={a: b for a, b in plan["knobs"].items() if a != k})
     sc = plan["scene"]
     for i in range(len(sc.get("laws", [])) - 1, -1, -1):
         yield dict(plan, scene=dict(sc, laws=sc["laws"][:i] + sc["laws"][i + 1 :]))
